@@ -115,5 +115,28 @@ CLAIMS.update({
                 "rectangle against a one-rectangle region model (trusted, justified by C05).",
     },
 })
+CLAIMS.update({
+    "C14": {
+        "text": "No stale derived state: for every setter of pixman-image.c, on an image with every field symbolic, '(all property fields "
+                "unchanged) or dirty' and 'the setter writes no derived field (flags, extended_format_code)'; _pixman_image_validate leaves the "
+                "image and its alpha map not dirty and calls the property_changed hook exactly once after the new flags; non-interference: "
+                "two images equal in every property but with arbitrary old flags/format code/dirty/refcounts get equal flags and code from "
+                "compute_image_info, and equal gradient sentinels.",
+        "note": "Images are hand-built (constructors not covered); gradient jobs cap at 3 stops (bounded); bits_image_property_changed / "
+                "setup_accessors non-interference is covered by C10's dispatch jobs only; the enumeration of derived state (flags, format code, "
+                "sentinels, accessors, TLS cache) is assumed complete; compute_image_info runs with --no-signed-overflow-check "
+                "((t00+t01) may overflow for arbitrary matrices).",
+    },
+    "C20": {
+        "text": "Image lifetime on images with every field symbolic and an ownership ghost record: unref returns TRUE exactly when the last "
+                "reference goes, then the destroy callback ran exactly once before any free, every owned block (transform, filter params, "
+                "clip data, stops, free_me) is freed exactly once (free accounting + leak check) and the alpha map loses exactly one reference "
+                "and one use count; otherwise only ref_count changes. set_alpha_map exchanges references and use counts, refuses chains in "
+                "both directions and the image itself; setters that replace owned buffers free the old block exactly once and keep it on "
+                "allocation failure. Two defects found here were repaired by fix: commits.",
+        "note": "Bounded: set_filter <= 8 words, clip regions <= 3 boxes / 1 rectangle. Constructors and glyph-cache frees are not in this "
+                "check (C17 covers free_glyph). Histories of any length follow from the inductive invariant img_wf, which is argued.",
+    },
+})
 _NOT_BUILT = "check not built yet in this session (planned in DESIGN.md §5); not claimed until bin/check passes on the unchanged tree"
-NOT_APPLICABLE = {p: _NOT_BUILT for p in ["C02", "C03", "C04", "C08", "C12", "C13", "C14", "C18", "C20"]}
+NOT_APPLICABLE = {p: _NOT_BUILT for p in ["C02", "C03", "C04", "C08", "C12", "C13", "C18"]}
